@@ -1118,7 +1118,9 @@ def fromFunction(func, interface=None, imlevel=0, name=None):
     method.required = names[:nr]
     method.optional = opt
 
-    argno = na
+    # Keyword-only parameters sit between the positional parameters and
+    # the ``*args``/``**kw`` names in ``co_varnames``.
+    argno = na + getattr(code, 'co_kwonlyargcount', 0)
 
     # Determine the function's variable argument's name (i.e. *args)
     if code.co_flags & CO_VARARGS:
